@@ -14,6 +14,7 @@ import (
 	"github.com/aws/smithy-go"
 	"github.com/truora/minidyn/core"
 	"github.com/truora/minidyn/interpreter"
+	"github.com/truora/minidyn/interpreter/language"
 )
 
 const (
@@ -735,6 +736,12 @@ func validateExpressionAttributes(exprNames map[string]string, exprValues map[st
 	err = validateSyntaxExpression(expressionAttributeValuesRegex, flattenValues, invalidExpressionAttributeValue)
 	if err != nil {
 		return err
+	}
+
+	for _, placeholder := range language.PlaceholdersIn(genericExpression) {
+		if _, ok := exprNames[placeholder]; !ok && placeholder[0] == '#' {
+			return &smithy.GenericAPIError{Code: "ValidationException", Message: "Invalid expression: An expression attribute name used in the document path is not defined; attribute name: " + placeholder}
+		}
 	}
 
 	return nil
